@@ -54,6 +54,14 @@ structure Row where
   retry : Nat
   prev : Option Nat
   new : Nat
+  hasProof : Bool := false   -- an aggchain proof is stored with the record (aggchain-prover flow, locally built records)
+  deriving Repr, DecidableEq
+
+/-- what the next call to the aggchain prover does: proves the requested range minus `cut` blocks, fails, or has no proof yet -/
+inductive Prover where
+  | ok (cut : Nat)
+  | fail
+  | notYet
   deriving Repr, DecidableEq
 
 structure Cfg where
@@ -61,6 +69,7 @@ structure Cfg where
   start : Nat := 0            -- StartL2Block
   maxSize : Nat := 0          -- MaxCertSize (0 = no limit)
   omitPrev : Bool := false    -- the Agglayer's headers carry no previous local exit root
+  fep : Bool := false         -- aggchain-prover flow (flow_aggchain_prover.go) instead of the PP flow
   deriving Repr, DecidableEq
 
 structure Sys where
@@ -72,6 +81,7 @@ structure Sys where
   failHdr : Bool := false     -- next GetCertificateHeader fails
   failSub : Bool := false     -- next SubmitCertificate fails (and is not applied)
   failRec : Bool := false     -- next GetLatest…CertificateHeader fails
+  prover : Prover := .ok 0    -- behaviour of the next prover call
   deriving Repr
 
 /-! ### storage -/
@@ -175,9 +185,69 @@ def build (size : Params → Nat) (cfg : Cfg) (l2 : List L2Blk) (loc : List Row)
                   prev := prev, new := newLER prev p.bridges,
                   bridges := p.bridges, claims := p.claims, status := .pending } retry p.to_
 
-def rowOfCert (c : ACert) (retry toBlock : Nat) : Row :=
+/-! ### the aggchain-prover flow -/
+
+/-- `getLastProvenBlock` -/
+def lastProven (start from_ : Nat) (last : Option Row) : Nat :=
+  if from_ = 0 then start
+  else
+    let below := match last with
+      | some r => decide (r.to_ < start)
+      | none => false
+    if below then start else if from_ - 1 < start then start else from_ - 1
+
+/-- `BuildCertificate` of the aggchain-prover flow (empty certificates are allowed) -/
+def finishFEP (loc : List Row) (last : Option Row) (p : Params) (retry : Nat) : Build :=
+  match nextHeightPrev loc last with
+  | Option.none => .err
+  | some (h, prev) =>
+    .cert { id := 0, height := h, from_ := p.from_, to_ := p.from_ + (p.to_ - p.from_) % 2^32,
+            prev := prev, new := newLER prev p.bridges,
+            bridges := p.bridges, claims := p.claims, status := .pending } retry p.to_
+
+/-- `verifyBuildParamsAndGenerateProof` + `BuildCertificate`; the prover call consumes the scripted behaviour -/
+def proveAndBuild (loc : List Row) (last : Option Row) (p : Params) (retry : Nat) (prover : Prover) : Build × Prover :=
+  if p.retry && decide (some p.from_ ≠ last.map (·.from_)) then (.err, prover)
+  else match prover with
+    | .fail => (.err, .ok 0)
+    | .notYet => (.none, .ok 0)
+    | .ok cut =>
+      let endB := p.to_ - cut
+      let q := if endB = p.to_ then some p else range p p.from_ endB
+      match q with
+      | Option.none => (.err, .ok 0)
+      | some q => (finishFEP loc last q retry, .ok 0)
+
+/-- `AggchainProverFlow.GetCertificateBuildParams` + `BuildCertificate` -/
+def buildFEP (size : Params → Nat) (cfg : Cfg) (l2 : List L2Blk) (loc : List Row) (prover : Prover) : Build × Prover :=
+  let last := lastRow loc
+  let retryOf : Option Row := match last with
+    | some r => if r.status = .inError then some r else Option.none
+    | Option.none => Option.none
+  match retryOf with
+  | some r =>
+    -- the last certificate is in error: the same block range again, with the stored proof if there is one
+    let p : Params := { from_ := r.from_, to_ := r.to_, bridges := bridgesIn l2 r.from_ r.to_, claims := claimsIn l2 r.from_ r.to_,
+                        fep := true, retry := true }
+    if r.hasProof then (finishFEP loc last p (r.retry + 1), prover)
+    else proveAndBuild loc last p (r.retry + 1) prover
+  | Option.none =>
+    let (prevTo, retry) := lastSentBlockAndRetry cfg.start last
+    let lp := lastProcessed l2
+    if prevTo ≥ lp then (.none, prover)
+    else
+      let f := prevTo + 1
+      let full : Params := { from_ := f, to_ := lp, bridges := bridgesIn l2 f lp, claims := claimsIn l2 f lp, fep := true,
+                             retry := decide (retry > 0) && last.isSome }
+      match limitCertSize size cfg.maxSize full with
+      | Option.none => (.err, prover)
+      | some p =>
+        let p := { p with from_ := lastProven cfg.start p.from_ last + 1 }
+        proveAndBuild loc last p retry prover
+
+def rowOfCert (c : ACert) (retry toBlock : Nat) (hasProof : Bool := false) : Row :=
   { height := c.height, id := c.id, status := .pending, from_ := c.from_, to_ := toBlock, retry := retry,
-    prev := some c.prev, new := c.new }
+    prev := some c.prev, new := c.new, hasProof := hasProof }
 
 inductive SendOut where
   | none | err
@@ -185,8 +255,12 @@ inductive SendOut where
   deriving Repr
 
 /-- `sendCertificate`; with `crash` the process dies between the submission and the local write -/
-def send (size : Params → Nat) (s : Sys) (crash : Bool) : Sys × SendOut :=
-  match build size s.cfg s.l2 s.loc with
+def buildAny (size : Params → Nat) (s : Sys) : Build × Prover :=
+  if s.cfg.fep then buildFEP size s.cfg s.l2 s.loc s.prover else (build size s.cfg s.l2 s.loc, s.prover)
+
+/-- the second half of `sendCertificate`: submit what was built, then record it -/
+def sendCore (s : Sys) (b : Build) (crash : Bool) : Sys × SendOut :=
+  match b with
   | .none => (s, .none)
   | .err => (s, .err)
   | .cert c retry toBlock =>
@@ -195,7 +269,11 @@ def send (size : Params → Nat) (s : Sys) (crash : Bool) : Sys × SendOut :=
       let c := { c with id := s.agg.length + 1 }
       let s := { s with agg := s.agg ++ [c] }
       if crash then ({ s with up := false }, .sent c)
-      else ({ s with loc := saveRow s.loc (rowOfCert c retry toBlock) }, .sent c)
+      else ({ s with loc := saveRow s.loc (rowOfCert c retry toBlock s.cfg.fep) }, .sent c)
+
+/-- `sendCertificate`; with `crash` the process dies between the submission and the local write -/
+def send (size : Params → Nat) (s : Sys) (crash : Bool) : Sys × SendOut :=
+  sendCore { s with prover := (buildAny size s).2 } (buildAny size s).1 crash
 
 /-! ### status polling -/
 
@@ -311,6 +389,7 @@ inductive Op where
   | status (crash : Bool)
   | move (id : Nat) (st : St)
   | failHdr | failSub | failRec
+  | prover (p : Prover)
   | crash
   | losedb
   | restart
@@ -325,6 +404,7 @@ def step (size : Params → Nat) (s : Sys) : Op → Sys
   | .failHdr => { s with failHdr := true }
   | .failSub => { s with failSub := true }
   | .failRec => { s with failRec := true }
+  | .prover p => { s with prover := p }
   | .crash => { s with up := false }
   | .losedb => { s with up := false, loc := [] }
   | .restart => ({ (restart s).1 with failRec := false, failHdr := false })
